@@ -48,6 +48,7 @@ static void add_seed(int t, const std::string &s) { W->seeds[t].push_back(s); }
 static std::string pgp_str(const tmcg_openpgp_octets_t &o) { return std::string(o.begin(), o.end()); }
 
 static void pgp_seeds();
+static std::vector<std::string> split_lines_local(const std::string &s) { std::vector<std::string> v; size_t i = 0; while (i < s.size()) { size_t j = s.find('\n', i); if (j == std::string::npos) { v.push_back(s.substr(i)); break; } v.push_back(s.substr(i, j - i)); i = j + 1; } return v; }
 static void build_world(bool heavy) {
   W = new World(); memset(W->gate, 0, sizeof W->gate); memset(W->execs, 0, sizeof W->execs);
   rng_seed(20260924);
@@ -78,7 +79,7 @@ static void build_world(bool heavy) {
   W->T->TMCG_CreateStackSecret(W->rss, true, 3, pv); W->T->TMCG_MixStack(W->s, W->rs2, W->rss, pv);
   { std::ostringstream o; W->T->TMCG_ProveStackEquality_Hoogh_noninteractive(W->s, W->rs2, W->rss, pv, W->vrhe, o); add_seed(T_HOOGH_NI, o.str()); }
   // shuffle of known content
-  W->com = new PedersenCommitmentScheme(3, pv->p, pv->q, pv->k, pv->h, 384, 128); { std::stringstream t; W->com->PublishGroup(t); W->skc = new GrothSKC(3, t, 32, 384, 128); add_seed(T_CTOR_COM, "\x03" + t.str()); add_seed(T_CTOR_SKC, "\x03" + t.str()); }
+  W->com = new PedersenCommitmentScheme(3, pv->p, pv->q, pv->k, pv->h, 384, 128); { std::stringstream t; W->com->PublishGroup(t); W->skc = new GrothSKC(3, t, 32, 384, 128); add_seed(T_CTOR_COM, "\x02" + t.str()); add_seed(T_CTOR_SKC, "\x02" + t.str()); /* first byte: number of generators minus one */ }
   { std::vector<size_t> pi = {2, 0, 1}; std::vector<mpz_ptr> mpi; for (size_t i = 0; i < 3; i++) { mpz_ptr a = new mpz_t(); mpz_init_set_ui(a, 10 + i); W->skc_m.push_back(a); } for (size_t i = 0; i < 3; i++) { mpz_ptr a = new mpz_t(); mpz_init_set(a, W->skc_m[pi[i]]); mpi.push_back(a); }
     mpz_t r; mpz_init(r); mpz_init(W->skc_c); W->com->Commit(W->skc_c, r, mpi); std::ostringstream o; W->skc->Prove_noninteractive(pi, r, W->skc_m, o); add_seed(T_SKC_NI, o.str()); mpz_clear(r); }
   // Rabin world
@@ -91,8 +92,11 @@ static void build_world(bool heavy) {
   add_seed(T_MPZ_STREAM, "0\n-1\nzzzz\n12345678901234567890\n"); add_seed(T_STREAM_OPS, std::string("\x00", 1) + W->seeds[T_VCARD][0] + "\n");
   // constructor texts
   add_seed(T_CTOR_VTMF, W->gtext); add_seed(T_CTOR_QR, W->qrtext);
-  { std::stringstream t; W->vsshe->PublishGroup(t); add_seed(T_CTOR_VSSHE, "\x04" + t.str()); std::stringstream u; W->vrhe->PublishGroup(u); add_seed(T_CTOR_VRHE, u.str()); }
+  { std::stringstream t; W->vsshe->PublishGroup(t); add_seed(T_CTOR_VSSHE, "\x03" + t.str()); std::stringstream u; W->vrhe->PublishGroup(u); add_seed(T_CTOR_VRHE, u.str()); }
   { std::ostringstream o; o << p.get_str(62) << "\n" << q.get_str(62) << "\n" << gz.get_str(62) << "\n" << Z(pv->h).get_str(62) << "\n"; add_seed(T_CTOR_PVSS, o.str() + "3\n1\n0\n"); add_seed(T_CTOR_GJKR, o.str() + "3\n1\n0\n"); add_seed(T_CTOR_CGJKR, "\x00" + o.str() + "3\n1\n0\n"); add_seed(T_CTOR_EOTP, o.str()); }
+  { // PedersenVSS::CheckGroup insists on the canonical generator: a state over the canonical group as well
+    auto cl = split_lines_local(vtmf_group_text(G_SCHNORR_CANON, 384, 128, 0)); Z cp, cq, cg; mpz_set_str(cp.get_mpz_t(), cl[0].c_str(), 62); mpz_set_str(cq.get_mpz_t(), cl[1].c_str(), 62); mpz_set_str(cg.get_mpz_t(), cl[2].c_str(), 62); Z ch = zpowm(cg, 4711, cp);
+    PedersenVSS vc(3, 1, 0, cp.get_mpz_t(), cq.get_mpz_t(), cg.get_mpz_t(), ch.get_mpz_t(), 384, 128, false); std::ostringstream oc; vc.PublishState(oc); add_seed(T_CTOR_PVSS, oc.str()); }
   { PedersenVSS v(3, 1, 0, pv->p, pv->q, pv->g, pv->h, 384, 128, false); std::ostringstream o; v.PublishState(o); add_seed(T_CTOR_PVSS, o.str());
     GennaroJareckiKrawczykRabinDKG d(3, 1, 0, pv->p, pv->q, pv->g, pv->h, 384, 128, false, false); std::ostringstream o2; d.PublishState(o2); add_seed(T_CTOR_GJKR, o2.str());
     CanettiGennaroJareckiKrawczykRabinRVSS r(3, 1, 0, 1, pv->p, pv->q, pv->g, pv->h, 384, 128, false, false, "x"); std::ostringstream o3; r.PublishState(o3); add_seed(T_CTOR_CGJKR, "\x00" + o3.str());
@@ -192,7 +196,7 @@ static void run_target(int t, const std::string &in) {
     case T_PUBKEY: guarded([&] { size_t z = in.find('\0'); std::string k = in.substr(0, z), sig = z == std::string::npos ? "" : in.substr(z + 1); TMCG_PublicKey pk; if (pk.import(k)) { gate(t); pk.verify("data", sig); pk.fingerprint(); pk.selfid(); if (pk.nizk.size() < 2000) pk.check(); } W->pk->verify("data", sig); }); break;
     case T_SECKEY: guarded([&] { size_t z = in.find('\0'); std::string k = in.substr(0, z), enc = z == std::string::npos ? "" : in.substr(z + 1); unsigned char out[TMCG_SAEP_S0 + 8]; W->sk->decrypt(out, enc); W->sk->decrypt(out, k);
         if (k.size() < 20000) { TMCG_SecretKey sk; if (sk.import(k)) { gate(t); if (mpz_sizeinbase(sk.m, 2) < 1200 && mpz_sizeinbase(sk.m, 2) >= 672 && mpz_sizeinbase(sk.m, 2) % 8 == 0) { sk.decrypt(out, enc); } } } }); break;
-    case T_CTOR_VTMF: guarded([&] { std::istringstream is(in); BarnettSmartVTMF_dlog v(is, 384, 128, false); if (v.CheckGroup()) { gate(t); v.CheckElement(v.g); } std::ostringstream o; v.PublishGroup(o); }); // an object whose group check fails is not used any further break;
+    case T_CTOR_VTMF: guarded([&] { std::istringstream is(in); BarnettSmartVTMF_dlog v(is, 384, 128, false); if (v.CheckGroup()) { gate(t); v.CheckElement(v.g); } std::ostringstream o; v.PublishGroup(o); }); break; // an object whose group check fails is not used any further
     case T_CTOR_QR: guarded([&] { std::istringstream is(in); BarnettSmartVTMF_dlog_GroupQR v(is, 256, 128); if (v.CheckGroup()) { gate(t); v.CheckElement(v.g); } }); break;
     case T_CTOR_COM: guarded([&] { if (in.empty()) return; size_t n = 1 + (unsigned char)in[0] % 8; std::istringstream is(in.substr(1)); PedersenCommitmentScheme c(n, is, 384, 128); if (c.CheckGroup()) gate(t); }); break;
     case T_CTOR_SKC: guarded([&] { if (in.empty()) return; size_t n = 1 + (unsigned char)in[0] % 8; std::istringstream is(in.substr(1)); GrothSKC c(n, is, 32, 384, 128); if (c.CheckGroup()) gate(t); }); break;
